@@ -537,7 +537,11 @@ def _resolve_handler(program, site: Site, in_fn, which, e, ex=None) -> HandlerRe
         params = list(module.scopes[fn].params)
         for k, a in enumerate(bound_args):
             if k < len(params):
-                bound[params[k]] = ("bound", params[k])
+                # functools.partial(handler, observer): the bound argument is the downstream observer itself
+                if isinstance(a, ast.Name) and a.id == site.observer_param:
+                    bound[params[k]] = ("obs", "down")
+                else:
+                    bound[params[k]] = ("bound", params[k])
     elif ex is not None:
         # the handler is the value of an expression: a factory parameter bound by the instantiation context, a
         # conditional expression decided by it, functools.partial of one of these
